@@ -122,11 +122,12 @@ ESAcc(ref, acc, i, env) ==
   ELSE "bad"
 
 \* kinds that == may compare in both back ends
-C4SameKind(a, b) == \/ IsNum(a) /\ IsNum(b)
+C4NumLike(v) == IsNum(v) \/ v.t = "bigint"
+C4SameKind(a, b) == \/ C4NumLike(a) /\ C4NumLike(b)
                     \/ a.t = b.t /\ a.t \in {"bool", "str", "null", "undef"}
 
 ES(e, env, bc) ==
-  CASE e.k \in {"null", "bool", "int", "float", "str", "global"} -> ""
+  CASE e.k \in {"null", "bool", "int", "bigint", "float", "str", "global"} -> ""
     [] e.k = "list" -> ESSeq(e.items, env, 1)
     [] e.k = "map" -> ESSeq([i \in 1..Len(e.items) |-> e.items[i].val], env, 1)
     [] e.k = "var" ->
